@@ -9,15 +9,19 @@ import (
 
 	"google.golang.org/grpc/grpclog"
 
+	"verif.local/sim/gmesim"
 	"verif.local/sim/mesim"
 	"verif.local/sim/poolsim"
 	"verif.local/sim/simkit"
+	"verif.local/sim/streamsim"
 )
 
 func engines() map[string]simkit.Engine {
 	return map[string]simkit.Engine{
 		"poolsim": poolsim.Engine{},
 		"mesim":   mesim.Engine{},
+		"gmesim":  gmesim.Engine{},
+		"streamsim": streamsim.Engine{},
 	}
 }
 
